@@ -10,7 +10,9 @@ from cfgcheck import LangTable
 from fsacheck import WTable, run_w, coq_str
 from common import dec_val, close_enough
 
-SYMS = ["a", "é", "€", "😀", "b", "ü"]   # 1-, 2-, 3-, 4-byte characters; é and ü share their first byte
+# 1-, 2-, 3-, 4-byte characters; é and ü share their first byte; € (e2 82 ac) and ス (e3 82 b9) share a byte that is not
+# the first one under different prefixes; 🟠 (f0 9f 9f a0) repeats a continuation byte
+SYMS = ["a", "é", "€", "😀", "ス", "ü", "🟠"]
 GSYMS = ["a", "é", "ab", "€b", "😀", "ü"]  # grammar terminals may be multi-character strings
 
 
@@ -46,9 +48,21 @@ def byte_strings(rng, table, n):
             out.append(list("".join(table[k] for k in xs).encode("utf-8")))
     out = [list(x) for x in {tuple(b) for b in out}]
     rng.shuffle(out)
-    out = out[:n]
+    singles = [list(t.encode("utf-8")) for t in table]
+    out = singles + [b for b in out if b not in singles][:n]
     trunc = [b[:-1] for b in out if len(b) > 1][:8] + [b[1:] for b in out if len(b) > 1][:6]
-    return out + trunc
+    # byte strings obtained by exchanging one byte between two multi-byte code words (another symbol, or no code word at all)
+    mb = [e for e in singles if len(e) > 1]
+    mixes = []
+    for e1 in mb:
+        for e2 in mb:
+            for pos in range(len(e1)):
+                for b2 in set(e2):
+                    z = e1[:pos] + [b2] + e1[pos + 1:]
+                    if z != e1 and z not in mixes:
+                        mixes.append(z)
+    rng.shuffle(mixes)
+    return out + trunc + mixes[:12]
 
 
 def run(ctx):
@@ -143,6 +157,12 @@ def run(ctx):
     # ---- WFSA.to_bytes
     k = len(SYMS)
     bm = [F.rand_wfsa(ctx.rng, nT=k, peps=0.15, eps_acyclic=True, narcs=ctx.rng.randint(2, 8)) for _ in range(n)]
+    for m in bm[::2]:   # several multi-byte symbols leaving one state (towards different states)
+        if m["init"]:
+            src = m["init"][0][0]
+            for a in ctx.rng.sample(range(1, k), ctx.rng.randint(2, 4)):
+                m["arcs"].append([src, a, ctx.rng.choice(F.states_of(m)), F.fs(Fraction(1, ctx.rng.randint(3, 9)))])
+            F.substochastic(m)
     btab = WTable(ctx, "bytes-automaton")
     plan = []
     for i, m in enumerate(bm):
@@ -199,7 +219,7 @@ def run(ctx):
     # ---- two byte-converted automata merged into one grammar
     jobs, cases = [], []
     for _ in range(8 if quick else 60):
-        s1, s2 = ctx.rng.sample([1, 2, 3, 5], 2)   # multi-byte symbols
+        s1, s2 = ctx.rng.sample([1, 2, 3, 4, 5, 6], 2)   # multi-byte symbols
         m1 = {"nT": k, "init": [[0, "1/1"]], "final": [[1, "1/1"]], "arcs": [[0, s1, 1, "1/2"]]}
         m2 = {"nT": k, "init": [[0, "1/1"]], "final": [[1, "1/1"]], "arcs": [[0, s2, 1, "1/3"]]}
         cands = [[a, b] for a in (s1, s2) for b in (s1, s2)]
